@@ -14,7 +14,13 @@ pub struct Stats {
     pub events: u64,
     pub samples: Vec<(u64, Scenario)>,
     pub observations: BTreeMap<String, u64>,
+    /// when > 0 only ids whose low `sample_shift` bits are zero are kept
+    /// (very long runs): the count is then a lower bound
+    pub sample_shift: u32,
 }
+
+/// beyond this many ids the distinct set switches to 1-in-16 sampling
+const DISTINCT_CAP: usize = 12_000_000;
 
 impl Stats {
     pub fn new() -> Stats {
@@ -47,7 +53,12 @@ impl Stats {
         self.events += events;
         if nontrivial {
             self.nontrivial += 1;
-            self.distinct.insert(id);
+            if self.sample_shift == 0 || id & ((1u64 << self.sample_shift) - 1) == 0 {
+                self.distinct.insert(id);
+                if self.distinct.len() > DISTINCT_CAP {
+                    self.thin();
+                }
+            }
         }
     }
     /// Keep a few sample scenarios (the ones with the smallest run index, so the
@@ -69,7 +80,22 @@ impl Stats {
         *self.observations.entry(what.to_string()).or_insert(0) += 1;
     }
 
-    pub fn merge(&mut self, o: Stats) {
+    /// Halve the memory of the distinct set by keeping one hash class in 16.
+    fn thin(&mut self) {
+        self.sample_shift += 4;
+        let mask = (1u64 << self.sample_shift) - 1;
+        self.distinct.retain(|x| x & mask == 0);
+        self.distinct.shrink_to_fit();
+    }
+
+    pub fn merge(&mut self, mut o: Stats) {
+        // bring both sides to the same sampling rate first
+        while self.sample_shift < o.sample_shift {
+            self.thin();
+        }
+        while o.sample_shift < self.sample_shift {
+            o.thin();
+        }
         for (k, v) in o.counters {
             *self.counters.entry(k).or_insert(0) += v;
         }
@@ -84,6 +110,9 @@ impl Stats {
         self.events += o.events;
         for h in o.distinct {
             self.distinct.insert(h);
+        }
+        if self.distinct.len() > DISTINCT_CAP {
+            self.thin();
         }
         for (i, s) in o.samples {
             self.sample(i, &s);
